@@ -115,11 +115,16 @@ def mismatch_traces(ctx, uni, mp, g, ps, fam, thorough):
             variants += [("idB", dict(idsB=(ids[0], b"bob2"))), ("swap", dict(idsB=(ids[1], ids[0]))),
                          ("idB-case", dict(idsB=(ids[0], b"BOB"))), ("idB-tab", dict(idsB=(ids[0], b"bob\t"))),
                          ("join", dict(idsB=(ids[0] + ids[1], b"")))]
+            # the same text with a separator, split at another field boundary (a joined or cached transcript head
+            # must keep these apart)
+            seps = [b":", b"\x00", b",", b"|", b"/", b" ", b";", b"-", b"\n", b"="]
+            for s in (seps if thorough else seps[ctx.seed % 2:ctx.seed % 2 + 3]):
+                variants.append(("sep-%02x" % s[0], dict(idsA=(b"alice" + s + b"desk", b"bob"), idsB=(b"alice", b"desk" + s + b"bob"))))
         variants += [(k, dict(psB=fam[k])) for k in (DIFFS_PARAM[pairing] if toy else ([] if not fam else list(fam)))]
         if not thorough and not toy:          # quick: a seed-dependent third of the variants at full size
-            variants = [v for k, v in enumerate(variants) if k % 3 == ctx.seed % 3 or v[0] in ("pw", "idA-case")]
+            variants = [v for k, v in enumerate(variants) if k % 3 == ctx.seed % 3 or v[0] in ("pw", "idA-case") or v[0].startswith("sep-")]
         if not thorough and g != "i11" and toy:
-            variants = [v for k, v in enumerate(variants) if k % 2 == ctx.seed % 2 or v[0] in DIFFS_PARAM[pairing]]
+            variants = [v for k, v in enumerate(variants) if k % 2 == ctx.seed % 2 or v[0] in DIFFS_PARAM[pairing] or v[0].startswith("sep-")]
         for name, kw in variants:
             for x in xs:
                 for y in (xs if toy and q <= 5 or thorough and toy and q <= 11 else [0, (q - x) % q, ctx.rng.randrange(q)] if toy or thorough
@@ -128,7 +133,7 @@ def mismatch_traces(ctx, uni, mp, g, ps, fam, thorough):
                         pw = kw.get("pwA") or (mp.pw_for(g, w) if toy else b"password")
                         nn = len(traces)     # either end may have been persisted and revived before finish()
                         r = exchange(uni, "mismatch/%s/%s/%s/x%d/y%d/w%s" % (g, pairing, name, x % 1000, y % 1000, w), pairing, ps, pw,
-                                     kw.get("pwB", pw), ids, kw.get("idsB", ids), mp.stream_for(g, x), mp.stream_for(g, y),
+                                     kw.get("pwB", pw), kw.get("idsA", ids), kw.get("idsB", ids), mp.stream_for(g, x), mp.stream_for(g, y),
                                      psB=kw.get("psB"), restoreA=nn % 2, restoreB=(nn // 2) % 2)
                         traces.append(r.json())
     return traces
